@@ -46,6 +46,14 @@ def main():
                 print("cannot create worktree", o)
                 return 2
             env = {"PYTHONPATH": os.path.join(wt, "src")}
+            # some scripts of the earlier waves locate the tree through their own path (<worktree>/_seed/<n>/script.py):
+            # run a copy from that place
+            sdir = os.path.join(wt, "_seed", "x")
+            os.makedirs(sdir, exist_ok=True)
+            for fn in os.listdir(src):
+                if fn.endswith(".py") or fn.endswith(".yaml") or fn.endswith(".json"):
+                    shutil.copy(os.path.join(src, fn), os.path.join(sdir, fn))
+            demo = os.path.join(sdir, os.path.basename(demo))
             rc0, o0 = sh(f"{PY} {demo}", cwd=wt, env=env, timeout=180)
             rca, oa = sh(f"git apply {patch}", cwd=wt)
             if rca:
